@@ -259,7 +259,8 @@ def load_known(prop: str) -> list[dict]:
     if not p.exists():
         return []
     data = json.loads(p.read_text())
-    return [e for e in data.get("findings", []) if e.get("property") == prop]
+    extra = [json.loads(f.read_text()) for f in sorted((VERIF / "findings").glob("*.json"))]   # entries proposed on a builder branch
+    return [e for e in data.get("findings", []) + extra if e.get("property") == prop]
 
 
 def write_replay(prop: str, obj: dict) -> str:
